@@ -486,6 +486,17 @@ Definition h_detached_recv : list op :=
   [Att 3 1 RMe false; Att 4 2 RMe false; Att 1 1 (RP2P 2) false; D; D; D; D; Att 2 2 (RP2P 1) false;
    Pub 2 (RP2P 1); D; D; Det 1 (RP2P 2); Note 3 1 (RP2P 2) WIRecv 1; D; D; D; D].
 
+(* decided by computation on the goal side (vm_compute leaves a VM cast for Qed; `vm_compute in H` would make Qed
+   re-do the whole run with the lazy machine) *)
+Definition no_info_to (k : N) (l : list (out * option N)) : bool :=
+  forallb (fun p => match fst p with
+                    | Frame sid _ _ _ w => negb ((sid =? k) && is_info w)
+                    | _ => true
+                    end) l.
+
+Lemma detached_recv_check : no_info_to 3 (snd (run_from init h_detached_recv)) = true.
+Proof. vm_compute. reflexivity. Qed.
+
 Lemma detached_recv_not_echoed :
   (forall user top src w f, ~ In (Frame 3 user top src w, f) (snd (run_from init h_detached_recv)) \/ is_info w = false) /\
   In (Frame 2 2 (TP2P 1 2) (TMe 1) WIRecv, Some 1) (snd (run_from init h_detached_recv)) /\
@@ -493,9 +504,8 @@ Lemma detached_recv_not_echoed :
 Proof.
   split; [|split].
   - intros user top src w f. destruct (is_info w) eqn:I; [left|right; reflexivity].
-    intros Hin. vm_compute in Hin.
-    repeat (destruct Hin as [E | Hin]; [try discriminate E; injection E as _ _ _ E _; rewrite <- E in I; discriminate I|]).
-    destruct Hin.
+    intros Hin. pose proof detached_recv_check as C. unfold no_info_to in C.
+    rewrite forallb_forall in C. specialize (C _ Hin). cbn [fst] in C. rewrite N.eqb_refl, I in C. discriminate C.
   - vm_compute. repeat (first [left; reflexivity | right]).
   - vm_compute. reflexivity.
 Qed.
